@@ -459,6 +459,23 @@ fn f5_window(trace: &[Evt]) -> bool {
     false
 }
 
+/// Direct regression guard for the repaired order (independent of values): the timestamp is bumped while some
+/// task holds the shared lock (a `wBump` emitted between a reader's `rAcq` and `rRel` emissions; both intervals
+/// lie inside the respective lock holdings, so with an exclusive lock held at the bump this cannot happen).
+fn bump_while_reader(trace: &[Evt]) -> Option<String> {
+    let mut tr: Vec<&Evt> = trace.iter().collect(); tr.sort_by_key(|e| e.hi);
+    let mut holding: BTreeSet<u32> = BTreeSet::new();
+    for e in tr {
+        match e.name {
+            "rAcq" => { holding.insert(e.task); }
+            "rRel" => { holding.remove(&e.task); }
+            "wBump" if !holding.is_empty() => return Some(format!("task {} bumped the timestamp to {} (event {}) while task(s) {:?} held the shared phase lock", e.task, e.a, e.hi, holding)),
+            _ => {}
+        }
+    }
+    None
+}
+
 // ------------------------------------------------------------------------------------------------
 // generators
 // ------------------------------------------------------------------------------------------------
@@ -679,7 +696,8 @@ fn main() {
             *dist.entry("determinism_checked".into()).or_insert(0) += 1;
             if key(&ro.trace) != key(&ro2.trace) { *dist.entry("determinism_mismatch".into()).or_insert(0) += 1; }
         }
-        let fs = judge(case, &ro);
+        let mut fs = judge(case, &ro);
+        if order == "fixed" { if let Some(d) = bump_while_reader(&ro.trace) { fs.push(("C04:timestamp-bumped-while-tracked-engine-alive".into(), d)); } }
         let f5w = f5_window(&ro.trace);
         emit_case(&mut out, idx, case, &ro, order);
         *dist.entry(format!("cases_{src}")).or_insert(0) += 1;
